@@ -25,6 +25,7 @@ import (
 
 	"github.com/anishathalye/porcupine"
 
+	"verifharness/kit"
 	"verifharness/proc"
 	"verifharness/vf"
 )
@@ -55,6 +56,22 @@ type recorder struct {
 	ops       []op
 	attempted map[int][]key // writer -> keys whose write was issued (recorded before the call)
 	seenKey   map[key]bool
+	acked     map[key]int64 // logical time of the first acknowledged write of the key
+	anomalies []map[string]any
+}
+
+func (r *recorder) ack(k key, t int64) {
+	r.mu.Lock()
+	if r.acked[k] == 0 {
+		r.acked[k] = t
+	}
+	r.mu.Unlock()
+}
+
+func (r *recorder) ackedAt(k key) int64 {
+	r.mu.Lock()
+	defer r.mu.Unlock()
+	return r.acked[k]
 }
 
 func (r *recorder) attempt(w int, ks ...key) {
@@ -135,7 +152,7 @@ func (rn *runner) runOnce(runIdx int, p profile, nW, nR, batches, scans int) {
 	var warm strings.Builder
 	var valSeq int64
 	newVal := func(client int) int64 { return int64(client)<<32 | atomic.AddInt64(&valSeq, 1) }
-	rec := &recorder{attempted: map[int][]key{}, seenKey: map[key]bool{}}
+	rec := &recorder{attempted: map[int][]key{}, seenKey: map[key]bool{}, acked: map[key]int64{}}
 	line := func(w, se int, t int64, v int64) string {
 		return fmt.Sprintf("m,w=%d,s=%d fi=%di,fs=\"v%d\" %d\n", w, se, v, v, t)
 	}
@@ -145,6 +162,7 @@ func (rn *runner) runOnce(runIdx int, p profile, nW, nR, batches, scans int) {
 			call := tick()
 			warm.WriteString(line(w, se, baseT, v))
 			rec.attempt(w, key{seriesName(w, se), baseT})
+			rec.ack(key{seriesName(w, se), baseT}, call+1)
 			rec.add(op{Client: w + 1, Write: true, Key: key{seriesName(w, se), baseT}, Val: v, Call: call, Ret: call + 1})
 		}
 	}
@@ -173,6 +191,7 @@ func (rn *runner) runOnce(runIdx int, p profile, nW, nR, batches, scans int) {
 		}
 	}
 	var stop int32
+	var closeTick int64 // logical time of the SIGTERM (0 = not yet)
 	var wg sync.WaitGroup
 	var writesDone int32
 	var readsOverlapFlush int64
@@ -220,6 +239,7 @@ func (rn *runner) runOnce(runIdx int, p profile, nW, nR, batches, scans int) {
 					ops[i].Call = call
 					if res.Acked() {
 						ops[i].Ret = ret
+						rec.ack(ops[i].Key, ret)
 					}
 				}
 				if !res.Acked() {
@@ -295,6 +315,17 @@ func (rn *runner) runOnce(runIdx int, p profile, nW, nR, batches, scans int) {
 				var ops []op
 				for _, k := range watchedKeys {
 					v := got[k] // 0 = absent
+					if v == 0 {
+						if at := rec.ackedAt(k); at != 0 && at < call {
+							rec.mu.Lock()
+							if len(rec.anomalies) < 4 {
+								l := kitLayout(s)
+								rec.anomalies = append(rec.anomalies, map[string]any{"query": stmt, "call": call, "ret": ret, "missing_key": k, "acked_at": at,
+									"series_in_answer": len(res.Results[0].Series), "raw": trunc(res.Raw, 3000), "layout_after": l, "flush_gen": []int64{f0, atomic.LoadInt64(&flushGen)}, "replace_gen": []int64{r0, atomic.LoadInt64(&replaceGen)}})
+							}
+							rec.mu.Unlock()
+						}
+					}
 					delete(got, k)
 					ops = append(ops, op{Client: client, Key: k, Val: v, Call: call, Ret: ret, Torn: v == -1})
 				}
@@ -313,6 +344,9 @@ func (rn *runner) runOnce(runIdx int, p profile, nW, nR, batches, scans int) {
 		n := 0
 		for atomic.LoadInt32(&stop) == 0 && atomic.LoadInt32(&writesDone) < int32(nW) {
 			time.Sleep(time.Duration(150+fr.IntN(500)) * time.Millisecond)
+			if os.Getenv("VERIF_C04_NOMAINT") != "" {
+				continue
+			}
 			switch x := fr.IntN(10); {
 			case x < 6:
 				atomic.AddInt64(&flushGen, 1)
@@ -342,7 +376,7 @@ func (rn *runner) runOnce(runIdx int, p profile, nW, nR, batches, scans int) {
 			i++
 			s.Write(db, fmt.Sprintf("md,w=9,s=0 fi=%di,fs=\"v%d\" %d\n", i, i, baseT+int64(i)*1_000_000_000), nil)
 			s.Query(db, "SELECT count(fi) FROM md", nil)
-			if i%40 == 20 {
+			if i%40 == 20 && os.Getenv("VERIF_C04_NODROP") == "" {
 				if _, err := s.Query(db, "DROP MEASUREMENT md", nil); err == nil {
 					c.Count("drops-while-active", 1)
 				}
@@ -373,6 +407,7 @@ func (rn *runner) runOnce(runIdx int, p profile, nW, nR, batches, scans int) {
 		crashed = firstFatal(s.StdoutTail(1 << 20))
 	} else {
 		// SIGTERM while readers (and the md clients) are still active
+		atomic.StoreInt64(&closeTick, tick())
 		s.Signal(syscall.SIGTERM)
 		if !s.WaitExit(90 * time.Second) {
 			cpu0 := cpuTicks(s.Pid())
@@ -410,7 +445,27 @@ func (rn *runner) runOnce(runIdx int, p profile, nW, nR, batches, scans int) {
 		c.Violation("duplicate-timestamp-in-one-result", fmt.Sprintf("run %d (%s): %s", runIdx, p.Name, d), map[string]any{"run": runIdx, "profile": p.Name, "rows": head(dupRows, 20)})
 	}
 	_ = unknownVals
-	rn.checkHistory(runIdx, p, rec.ops)
+	// answers given while the server is closing are outside the consistency claim (the
+	// property only demands that closing neither deadlocks nor crashes): reads that had not
+	// returned before the SIGTERM are not judged
+	ct := atomic.LoadInt64(&closeTick)
+	judged := rec.ops[:0:0]
+	dropped := 0
+	for _, o := range rec.ops {
+		if !o.Write && ct != 0 && (o.Ret == 0 || o.Ret >= ct) {
+			dropped++
+			continue
+		}
+		judged = append(judged, o)
+	}
+	var anomalies []map[string]any
+	for _, a := range rec.anomalies {
+		if r, _ := a["ret"].(int64); ct == 0 || r < ct {
+			anomalies = append(anomalies, a)
+		}
+	}
+	c.Count("read-observations-overlapping-the-close(not judged)", int64(dropped))
+	rn.checkHistory(runIdx, p, judged, anomalies)
 	rn.collectRaces(runIdx, p, raceLog)
 	_ = r
 	if runIdx == 0 {
@@ -482,7 +537,7 @@ func cpuTicks(pid int) int64 {
 
 // checkHistory: per key, porcupine register check plus a direct single-writer check that
 // names the anomaly.
-func (rn *runner) checkHistory(runIdx int, p profile, ops []op) {
+func (rn *runner) checkHistory(runIdx int, p profile, ops []op, anomalies []map[string]any) {
 	c := rn.c
 	byKey := map[key][]op{}
 	var end int64
@@ -567,7 +622,7 @@ func (rn *runner) checkHistory(runIdx int, p profile, ops []op) {
 				what, sig := explain(kops)
 				sort.Slice(kops, func(i, j int) bool { return kops[i].Call < kops[j].Call })
 				c.Violation("non-linearizable-key:"+sig, fmt.Sprintf("run %d (%s): history of %s@%d is not linearizable: %s", runIdx, p.Name, k.Series, k.T, what),
-					map[string]any{"run": runIdx, "profile": p.Name, "key": k, "ops": kops})
+					map[string]any{"run": runIdx, "profile": p.Name, "key": k, "ops": kops, "anomalous_answers": anomalies})
 			}
 		}
 	}
@@ -757,8 +812,8 @@ func main() {
 		c.Nontrivial("replay-b")
 		c.Finish()
 	}
-	runs := c.Pick(2, 12)
-	par := c.Pick(2, 3)
+	runs := c.Pick(3, 12)
+	par := c.Pick(3, 3)
 	sem := make(chan struct{}, par)
 	var wg sync.WaitGroup
 	for i := 0; i < runs; i++ {
@@ -766,9 +821,26 @@ func main() {
 		wg.Add(1)
 		go func(i int) {
 			defer func() { <-sem; wg.Done() }()
-			rn.runOnce(i, profiles[i%len(profiles)], 4, 3, c.Pick(120, 200), c.Pick(100, 160))
+			p := profiles[i%len(profiles)]
+			if v := os.Getenv("VERIF_C04_PROFILE"); v != "" {
+				for _, x := range profiles {
+					if x.Name == v {
+						p = x
+					}
+				}
+			}
+			rn.runOnce(i, p, 4, 3, c.Pick(150, 220), c.Pick(120, 180))
 		}(i)
 	}
 	wg.Wait()
 	c.Finish()
 }
+
+func trunc(s string, n int) string {
+	if len(s) > n {
+		return s[:n]
+	}
+	return s
+}
+
+func kitLayout(s *proc.Server) string { return kit.ReadLayout(s, db).String() }
